@@ -27,6 +27,7 @@ from fractions import Fraction
 import sympy as sp
 
 from .core import AnalysisError, norm
+from .canon import _dc
 
 
 class Unsupported(AnalysisError):
@@ -703,6 +704,24 @@ class Tx:
                     return self.block(list(st.body) + rest)
                 if c is False:
                     return self.block(list(st.orelse) + rest)
+                if rest and any(isinstance(n, ast.Return) for n in ast.walk(st)) and not getattr(self, "_no_dup", False):
+                    # a return somewhere inside a branch that otherwise falls through: give each branch the rest of the block as
+                    # its continuation, so that every path of the branch ends in the block's own ending
+                    nested_partial = False
+                    probe = self.child(dict(self.env))
+                    probe.guards, probe.effects, probe.asserts = [], [], []
+                    probe._no_dup = False
+                    try:
+                        for br in (st.body, st.orelse):
+                            p2 = probe.child(dict(self.env))
+                            p2.guards, p2.effects, p2.asserts = [], [], []
+                            p2.block(list(br))
+                    except Unsupported as e:
+                        nested_partial = "falls off the end" in str(e)
+                    if nested_partial:
+                        dup = ast.If(test=st.test, body=list(st.body) + rest, orelse=list(st.orelse) + rest)
+                        ast.copy_location(dup, st)
+                        return self.block([dup])
                 ta = self.child(dict(self.env))
                 g0 = len(self.guards)
                 ra = ta.block(list(st.body))
@@ -780,7 +799,7 @@ class Tx:
 def _as_load(node):
     import copy
 
-    n = copy.deepcopy(node)
+    n = _dc(node)
     for x in ast.walk(n):
         if hasattr(x, "ctx"):
             x.ctx = ast.Load()
